@@ -5,6 +5,7 @@ use std::io::{BufRead, BufWriter, Write};
 mod simfs;
 mod suite_filter;
 mod suite_log;
+mod suite_table;
 mod util;
 
 fn main() {
@@ -17,6 +18,9 @@ fn main() {
         "crcmask" => suite_log::run_crcmask,
         "bloom" => suite_filter::run_bloom,
         "fblock" => suite_filter::run_fblock,
+        "key" => suite_table::run_key,
+        "block" => suite_table::run_block,
+        "table" => suite_table::run_table,
         _ => panic!("unknown suite {}", suite),
     };
     let stdin = std::io::stdin();
